@@ -198,3 +198,145 @@ pub fn c04_str_heads_and_truncation() {
     }
     kani::cover!(true);
 }
+
+/// Indefinite-length byte strings through `bytes_iter`: the chunks concatenate to the whole,
+/// each chunk is borrowed from the input, the break is consumed; a chunk of the other major
+/// type or an indefinite chunk is an error.  Type-directed: `5f 4<n1> .. 4<n2> .. ff`, chunk
+/// lengths concrete per harness, contents symbolic.
+fn chunks<const MAJOR: u8, const N1: usize, const N2: usize>() {
+    let a: [u8; 4] = kani::any();
+    let mut buf = [0u8; 8];
+    let m = MAJOR << 5;
+    buf[0] = m | 31;
+    buf[1] = m | N1 as u8;
+    let mut i = 0;
+    while i < 2 { if i < N1 { buf[2 + i] = if MAJOR == 3 { a[i] & 0x7f } else { a[i] }; } i += 1; }
+    buf[2 + N1] = m | N2 as u8;
+    let mut j = 0;
+    while j < 2 { if j < N2 { buf[3 + N1 + j] = if MAJOR == 3 { a[2 + j] & 0x7f } else { a[2 + j] }; } j += 1; }
+    buf[3 + N1 + N2] = 0xff;
+    let total = 4 + N1 + N2;
+    let mut d = Decoder::new(&buf[..total]);
+    let mut got = [0u8; 4];
+    let mut n = 0usize;
+    let mut chunks = 0;
+    if MAJOR == 2 {
+        let it = d.bytes_iter();
+        assert!(it.is_ok());
+        for c in it.unwrap() {
+            assert!(c.is_ok(), "well-formed chunk rejected");
+            let c = c.unwrap();
+            assert!(c.as_ptr() as usize >= buf.as_ptr() as usize && (c.as_ptr() as usize) < buf.as_ptr() as usize + 8, "chunk not borrowed from the input");
+            let mut k = 0;
+            while k < 2 { if k < c.len() { got[n + k] = c[k]; } k += 1; }
+            n += c.len();
+            chunks += 1;
+        }
+    } else {
+        let it = d.str_iter();
+        assert!(it.is_ok());
+        for c in it.unwrap() {
+            assert!(c.is_ok(), "well-formed chunk rejected");
+            let c = c.unwrap().as_bytes();
+            let mut k = 0;
+            while k < 2 { if k < c.len() { got[n + k] = c[k]; } k += 1; }
+            n += c.len();
+            chunks += 1;
+        }
+    }
+    assert!(chunks == 2 && n == N1 + N2, "chunks do not concatenate to the whole");
+    let mut k = 0;
+    while k < 2 { if k < N1 { assert!(got[k] == buf[2 + k]); } k += 1; }
+    let mut k = 0;
+    while k < 2 { if k < N2 { assert!(got[N1 + k] == buf[3 + N1 + k]); } k += 1; }
+    assert!(d.position() == total, "break not consumed / position not at the end of the item");
+}
+macro_rules! chunk_h { ($($name:ident $m:expr, $a:expr, $b:expr);*) => { $(
+    #[kani::proof]
+    #[kani::unwind(6)]
+    pub fn $name() { chunks::<$m, $a, $b>() } )* } }
+chunk_h!(c04_bytes_chunks_2_1 2, 2, 1; c04_bytes_chunks_0_2 2, 0, 2; c04_str_chunks_1_2 3, 1, 2; c04_str_chunks_2_0 3, 2, 0);
+
+/// A chunk of the other major type, or an indefinite chunk, inside an indefinite string is an error.
+#[kani::proof]
+#[kani::unwind(6)]
+pub fn c04_bad_chunks_rejected() {
+    let bad: u8 = kani::any();
+    kani::assume(bad == 0x61 || bad == 0x5f || bad == 0x01 || bad == 0x81);
+    let buf = [0x5f, 0x41, 0x00, bad, 0x00, 0xff, 0xff];
+    let mut d = Decoder::new(&buf[..]);
+    let mut err = false;
+    let mut steps = 0;
+    for c in d.bytes_iter().unwrap() { steps += 1; if c.is_err() { err = true; break } if steps > 3 { break } }
+    assert!(err, "ill-typed chunk inside an indefinite byte string accepted");
+}
+
+/// `array_iter::<u16>` / `map_iter::<u8, bool>`: elements in order, definite count-down and
+/// indefinite break handling, exact end position (type-directed skeletons).
+#[kani::proof]
+#[kani::unwind(6)]
+pub fn c04_array_iter_values() {
+    let a: [u8; 4] = kani::any();
+    let indef: bool = kani::any();
+    let def = [0x82, 0x19, a[0], a[1], 0x19, a[2], a[3], 0x00];
+    let ind = [0x9f, 0x19, a[0], a[1], 0x19, a[2], a[3], 0xff];
+    let buf = if indef { ind } else { def };
+    let len = if indef { 8 } else { 7 };
+    let mut d = Decoder::new(&buf[..]);
+    let mut out = [0u16; 2];
+    let mut n = 0;
+    for x in d.array_iter::<u16>().unwrap() { assert!(x.is_ok()); if n < 2 { out[n] = x.unwrap(); } n += 1; if n > 2 { break } }
+    assert!(n == 2 && out[0] == u16::from_be_bytes([a[0], a[1]]) && out[1] == u16::from_be_bytes([a[2], a[3]]));
+    assert!(d.position() == len);
+}
+
+/// Types decoded through the shared field loop (`Range*`, `Duration`, ...) from an
+/// INDEFINITE-length array (`9f .. ff`, never produced by minicbor's own encoder) and from
+/// non-preferred heads: value and end position (the break belongs to the item).
+#[kani::proof]
+#[kani::unwind(6)]
+#[kani::stub(minicbor::decode::Decoder::skip, crate::util::skip_r3_small)]
+pub fn c04_td_range_indefinite() {
+    let a: [u8; 2] = kani::any();
+    let buf = [0x9f, 0x18, a[0], 0x18, a[1], 0xff, 0x05];
+    let mut d = Decoder::new(&buf[..]);
+    let r = d.decode::<core::ops::Range<u8>>();
+    assert!(r.is_ok(), "indefinite-length encoding of a Range rejected");
+    let v = r.unwrap();
+    assert!(v.start == a[0] && v.end == a[1]);
+    assert!(d.position() == 6, "position is not at the end of the item (break not consumed?)");
+    // what follows can be read as the next item
+    assert!(matches!(d.u8(), Ok(5)));
+}
+
+#[kani::proof]
+#[kani::unwind(6)]
+#[kani::stub(minicbor::decode::Decoder::skip, crate::util::skip_r3_small)]
+pub fn c04_td_duration_indefinite_and_wide() {
+    let a: [u8; 3] = kani::any();
+    let buf = [0x9f, 0x19, a[0], a[1], 0x18, a[2], 0xff, 0x05];
+    let mut d = Decoder::new(&buf[..]);
+    let r = d.decode::<core::time::Duration>();
+    assert!(r.is_ok());
+    let v = r.unwrap();
+    assert!(v.as_secs() == u16::from_be_bytes([a[0], a[1]]) as u64 && v.subsec_nanos() == a[2] as u32);
+    assert!(d.position() == 7, "position is not at the end of the item (break not consumed?)");
+    // definite array with a wide (non-preferred) head
+    let buf2 = [0x98, 0x02, 0x19, a[0], a[1], 0x18, a[2], 0x05];
+    let mut d = Decoder::new(&buf2[..]);
+    let r = d.decode::<core::time::Duration>();
+    assert!(r.is_ok());
+    assert!(d.position() == 7);
+}
+
+#[kani::proof]
+#[kani::unwind(6)]
+#[kani::stub(minicbor::decode::Decoder::skip, crate::util::skip_r3_small)]
+pub fn c04_td_range_from_indefinite() {
+    let a: [u8; 2] = kani::any();
+    let buf = [0x9f, 0x19, a[0], a[1], 0xff, 0x05];
+    let mut d = Decoder::new(&buf[..]);
+    let r = d.decode::<core::ops::RangeFrom<u16>>();
+    assert!(matches!(r, Ok(ref v) if v.start == u16::from_be_bytes(a)));
+    assert!(d.position() == 5, "position is not at the end of the item (break not consumed?)");
+}
